@@ -36,6 +36,18 @@ CLAIMS = {
             "against the same actions, with the stream content recomputed by TLC from the offset function.",
             "Trusted: TLC, the proxy/driver harness/tlsdrv.c, reference X.509 writer. Scheduling of the two endpoint threads is explored only as far as the OS and the fragmenting proxy produce it.",
             "4/C08"),
+    "C01": ("model_checking",
+            "TLC model checking of Sm2Sig.tla (nonce pool / chunking) + TLC evaluation of Sm2Judge.tla (Z, e, strict DER, ranges and nonce relations in BigNat, scalar-multiplication chains) on replayed acceptance cases and signing traces",
+            "TLC computes Z (ENTL from idlen) and the digest over the SM3 table, decides the acceptance verdict of every enumerated candidate (24 DER forms x valid signatures, 7x7 r/s classes, r+s=n, context mutations, bit flips) for all three verification interfaces, "
+            "and checks every produced signature of the four signing interfaces: canonical DER, ranges, s(1+d)+rd = k and r = e + x([k]G) mod n for the recovered nonce, no nonce reuse across pool refills.",
+            "Trusted: TLC, SM3 table; the truth of the curve equation / x([k]G) comes from the reference implementation and is justified by TLC-checked double-and-add chains for a sample of nonces.",
+            "4/C01"),
+    "C02": ("model_checking",
+            "TLC evaluation of Sm2Judge.tla on encryption traces, the malformed-ciphertext space and ECDH cases (strict DER via Der.tla, curve membership in BigNat, KDF / C2 / C3 from Crypto.tla)",
+            "Every ciphertext the six encryption interfaces produce (lengths 1..255) is judged by TLC (canonical DER, C1 on the curve, C2 and C3 recomputed from the shared point) and decrypted back; reference-made ciphertexts, "
+            "17 encoding forms, C1 classes, C3/C2 modifications and bit flips are decided by the executable DecryptExpected definition; ECDH results must equal the reference [d]Q both ways and refuse invalid peers.",
+            "Trusted: TLC, SM3 table, reference scalar multiplication for the shared point.",
+            "4/C02"),
     "C03": ("model_checking",
             "TLC model checking of Stream.tla (md buffer machine, all chunkings) + behaviour generation + trace validation against CryptoTrace.tla where TLC recomputes every construction from Crypto.tla over compression-function tables",
             "TLC explores every chunking of the partial-block buffer machine on a small block and generates the transition-covering chunkings; each real execution (6 hash algorithms, HMAC, PBKDF2, HKDF, SM3/SM2 KDF, every API path) is validated by TLC recomputing padding, length encoding, chaining, ipad/opad, F, expand and counter rules from the TLA+ definitions -- only the compression function values come from reference tables.",
